@@ -7,6 +7,8 @@ import (
 	"sort"
 
 	"gnoverif/engine"
+
+	"golang.org/x/tools/go/cfg"
 )
 
 // C18 — coin-set arithmetic: operands untouched, checked amount arithmetic,
@@ -223,10 +225,20 @@ func c18(c *engine.Ctx) {
 	if rz := p.Func(S + "removeZeroCoins"); rz != nil {
 		merges = append(merges, rz)
 	}
-	for _, f := range merges {
-		info := f.Info()
-		g := f.Graph()
-		for _, s := range f.CallsTo("builtin.append") {
+	seenApp := map[ast.Node]bool{}
+	for _, mf := range merges {
+		for _, ds := range mf.DeepFind(2, func(fn *engine.Fn, n ast.Node) bool {
+			call, ok := n.(*ast.CallExpr)
+			return ok && authdCalleeName(fn.Info(), call) == "builtin.append"
+		}) {
+			s := ds.Inner
+			f := s.Fn
+			if seenApp[s.Node] || f.Pkg.PkgPath != engine.ModPrefix+"tm2/pkg/std" {
+				continue
+			}
+			seenApp[s.Node] = true
+			info := f.Info()
+			g := f.Graph()
 			if len(s.Call.Args) < 2 {
 				continue
 			}
@@ -243,8 +255,7 @@ func c18(c *engine.Ctx) {
 				nz++
 				key := f.Name + " append(" + engine.ExprString(a) + ")"
 				if s.Call.Ellipsis.IsValid() {
-					call, isRZ := authdCalleeIs(info, a, S+"removeZeroCoins")
-					_ = call
+					_, isRZ := authdCalleeIs(info, a, S+"removeZeroCoins")
 					c.Check("zero-free-append", key, s.Pos(), isRZ, "a spread tail appended to the result must come from removeZeroCoins")
 					continue
 				}
@@ -259,13 +270,21 @@ func c18(c *engine.Ctx) {
 								ok = true
 							}
 						}
+						// amount == 0 written out
+						if x, op, y, isCmp := authdCmp(authdFact{E: fc.E}); isCmp && op == token.EQL {
+							if v, isC := authdConstInt(info, y); isC && v == 0 && authdIsField(info, x, amount) {
+								if se, isSel := ast.Unparen(x).(*ast.SelectorExpr); isSel && authdSameExpr(se.X, a) {
+									ok = true
+								}
+							}
+						}
 					}
 				}
 				c.Check("zero-free-append", key, s.Pos(), ok, "an element appended to the result must be guarded by !"+engine.ExprString(a)+".IsZero()")
 			}
 		}
 	}
-	c.Floor("zero-free-append", nz, 5)
+	c.Floor("zero-free-append", nz, 3)
 
 	// ---- (5) ParseCoins sorts and validates ----
 	if f := c.MustFunc(S + "ParseCoins"); f != nil {
@@ -433,17 +452,9 @@ func authdCheckedAmountOp(f *engine.Fn, helper string, amount, denom *types.Var)
 		if dn == nil || !authdIsField(info, dn, denom) {
 			return false, "the returned coin's denom is not an operand's denom"
 		}
-		// denom equality gate
-		okDen := false
-		for _, gt := range g.Gates(st) {
-			for _, fc := range authdFacts(gt) {
-				x, op, y, isCmp := authdCmp(fc)
-				if isCmp && op == token.EQL && authdIsField(info, x, denom) && authdIsField(info, y, denom) && !authdSameExpr(x, y) {
-					okDen = true
-				}
-			}
-		}
-		if !okDen {
+		// denom equality gate: a dominating comparison, or a guard helper that
+		// returns normally only when the two denominations are equal
+		if !authdDenomGuarded(f, st, ops[0], ops[1], denom) {
 			return false, "the return is not gated by equality of the two denominations"
 		}
 	}
@@ -514,4 +525,110 @@ func authdValidatedResult(f, unsafe *engine.Fn) (bool, string) {
 		}
 	}
 	return true, "returns " + authdShort(unsafe.Name) + " result only when validate() == nil"
+}
+
+// authdDenomGuarded: at site st of f the fact a.Denom == b.Denom holds, either
+// by a gate of f or because a dominating call of a package-local guard helper
+// (whose mismatch branch cannot return) was passed a and b.
+func authdDenomGuarded(f *engine.Fn, st *engine.Site, a, b types.Object, denom *types.Var) bool {
+	info := f.Info()
+	g := f.Graph()
+	denomOf := func(in *types.Info, e ast.Expr) types.Object {
+		se, ok := ast.Unparen(e).(*ast.SelectorExpr)
+		if !ok || !authdIsField(in, se, denom) {
+			return nil
+		}
+		return engine.ObjOf(in, se.X)
+	}
+	for _, gt := range g.Gates(st) {
+		for _, fc := range authdFacts(gt) {
+			x, op, y, isCmp := authdCmp(fc)
+			if !isCmp || op != token.EQL {
+				continue
+			}
+			p, q := denomOf(info, x), denomOf(info, y)
+			if (p == a && q == b) || (p == b && q == a) {
+				return true
+			}
+		}
+	}
+	for _, cs := range f.Calls() {
+		fn, _ := cs.Callee.(*types.Func)
+		h := f.Prog.FnOf(fn)
+		if h == nil || h == f || cs.Deferred || !g.Dominates(cs, st) {
+			continue
+		}
+		// which parameters of h receive a and b
+		hops := authdOperands(h)
+		var args []ast.Expr
+		if se, ok := ast.Unparen(cs.Call.Fun).(*ast.SelectorExpr); ok {
+			if sel, ok := info.Selections[se]; ok && sel.Kind() == types.MethodVal {
+				args = append(args, se.X)
+			}
+		}
+		args = append(args, cs.Call.Args...)
+		var pa, pb types.Object
+		for i, e := range args {
+			if i >= len(hops) {
+				break
+			}
+			switch engine.ObjOf(info, e) {
+			case a:
+				pa = hops[i]
+			case b:
+				pb = hops[i]
+			}
+		}
+		if pa == nil || pb == nil || len(authdAssignsTo(h, pa)) != 0 || len(authdAssignsTo(h, pb)) != 0 {
+			continue
+		}
+		hi := h.Info()
+		hg := h.Graph()
+		// every normal exit of h carries the fact pa.Denom == pb.Denom
+		exits := hg.ReturnBlocks()
+		// falling off the end of a function without results also is a return block in go/cfg
+		if len(exits) == 0 {
+			continue
+		}
+		all := true
+		for _, eb := range exits {
+			var site *engine.Site
+			if len(eb.Nodes) > 0 {
+				site = h.SiteOf(eb.Nodes[len(eb.Nodes)-1])
+			}
+			proved := false
+			for _, c := range hg.CFG.Blocks {
+				cond := hg.CondOf(c)
+				if cond == nil || !(c == eb || hg.BlockDominates(c, eb)) {
+					continue
+				}
+				x, op, y, isCmp := authdCmp(authdFact{E: cond})
+				if !isCmp {
+					continue
+				}
+				p, q := denomOf(hi, x), denomOf(hi, y)
+				if !((p == pa && q == pb) || (p == pb && q == pa)) {
+					continue
+				}
+				mis := c.Succs[0]
+				if op == token.EQL {
+					mis = c.Succs[1]
+				} else if op != token.NEQ {
+					continue
+				}
+				// the mismatch branch must not reach this exit
+				if mis != eb && !hg.Reach(mis, eb, map[*cfg.Block]bool{c: true}) {
+					proved = true
+				}
+			}
+			_ = site
+			if !proved {
+				all = false
+			}
+		}
+		if all {
+			return true
+		}
+	}
+	return false
 }
